@@ -25,6 +25,7 @@ PYSIDE = os.path.join(vlib.ROOT, "harness", "py", "c14_pyside.py")
 SIG_NUL = "python:score:bos+eos-fast-path:NUL-in-sentence"
 SIG_NUL_WORD = "python:vocab.Index(char*):NUL-in-word"
 WS = b"\t\n\x0b\x0c\r "
+UNICODE_ONLY_SPACES = [c for c in range(0x110000) if chr(c).isspace() and c not in (9, 10, 11, 12, 13, 32)]
 COMBOS = ((True, True), (True, False), (False, True), (False, False))
 TYPE_NAMES = ["probing", "rest-probing", "trie", "quant-trie", "array-trie", "quant-array-trie"]
 
@@ -217,6 +218,12 @@ def gen_sentences(rng, grams, n_random):
              w1 + b" </s> " + w2, b"zzzOOVzzz", w1 + b" zzzOOVzzz " + w2, "\u00e9\u4e16 \u00a0 \u2003".encode("utf-8"), b"\xff\xfe " + w1,
              b"\x85 " + w1 + b" \xa0", b"\x1c\x1d\x1e\x1f " + w1,      # str.split() whitespace that bytes.split() keeps
              b"w" * 1000, b" ".join([w1, w2] * 100)]
+    # every character str.split() / str.isspace() treats as a separator although it is not ASCII white space: for the model
+    # (bytes.split() / util::kSpaces on the UTF-8 bytes) these are ordinary word bytes
+    for cp in UNICODE_ONLY_SPACES:
+        ch = chr(cp).encode("utf-8")
+        fixed.append(w1 + ch + w2)
+    fixed.append(w1 + b" " + "".join(chr(c) for c in UNICODE_ONLY_SPACES[:6]).encode("utf-8") + b" " + w2)
     for ws in WS:
         fixed.append(w1 + bytes([ws]) + w2)
         fixed.append(bytes([ws]) + w1 + bytes([ws, ws]) + w2 + bytes([ws]))
@@ -234,7 +241,8 @@ def gen_sentences(rng, grams, n_random):
             elif r < 8:
                 toks.append(rng.choice(body))
             else:
-                toks.append(rng.choice([b"OOV", "\u00fc".encode("utf-8"), b"=", b"<unk>", b"A\x01B"]))
+                toks.append(rng.choice([b"OOV", "\u00fc".encode("utf-8"), b"=", b"<unk>", b"A\x01B",
+                                        rng.choice(body) + chr(rng.choice(UNICODE_ONLY_SPACES)).encode("utf-8") + rng.choice(body)]))
         s = bytearray()
         if rng.chance(1, 4):
             s += bytes(rng.choice(WS) for _ in range(rng.range(1, 3)))
@@ -397,6 +405,26 @@ def oracle(s, obs, chains, i):
             fails.append((SIG_NUL, "perplexity is computed from the fast-path score"))
         else:
             fails.append(("python:perplexity", "perplexity=%r, 10**-(sum/n)=%r (n=%d)" % (got, want, n)))
+    # a str sentence is its UTF-8 bytes: every entry point must answer exactly as for the bytes object
+    if "str" in obs:
+        t = obs["str"]
+        for (bos, eos), cb, ct in zip(COMBOS, obs["combos"], t["combos"]):
+            tag = "bos=%d:eos=%d" % (bos, eos)
+            if ct["score"] != cb["score"]:
+                fails.append(("python:str-input!=bytes-input:score:" + tag, "score(str)=%s, score(bytes)=%s" % (ct["score"], cb["score"])))
+            if ct["fs"] != cb["fs"]:
+                fails.append(("python:str-input!=bytes-input:full_scores:" + tag, "full_scores(str)=%s, full_scores(bytes)=%s" % (ct["fs"][:6], cb["fs"][:6])))
+        if t["contains"] != obs["contains"]:
+            fails.append(("python:str-input!=bytes-input:__contains__", "`word in model` differs between str and bytes words"))
+        got_t = float.fromhex(t["ppl"])
+        # perplexity of the str sentence against the specification directly: words are counted the model's way
+        want_t = 10.0 ** (-f_of_bits(f32_sum([p for p, _, _ in t["combos"][0]["fs"]])) / n)
+        if not (got_t == want_t or abs(got_t - want_t) <= 1e-12 * max(abs(want_t), 1e-300)):
+            via_score = 10.0 ** (-f_of_bits(t["combos"][0]["score"]) / n)
+            if nul and (got_t == via_score or abs(got_t - via_score) <= 1e-12 * abs(via_score)):
+                fails.append((SIG_NUL, "perplexity is computed from the fast-path score"))
+            else:
+                fails.append(("python:perplexity:str-input", "perplexity(str)=%r, 10**-(sum of the %d per-word log probabilities / %d)=%r" % (got_t, n, n, want_t)))
     def inv(ts):
         return [1 if int(chains[(i, ts, 1)][0][k][0]) != 0 else 0 for k in range(len(ts))]
     if obs["contains"] != inv(toks):
@@ -576,8 +604,8 @@ def run(ctx):
     ctx.coverage["models"] = [m[0] for m in models]
     ctx.coverage["rule"] = ("every model file (lm/test.arpa, lm/test_nounk.arpa, a generated order-3 ARPA with UTF-8 words and dyadic probabilities; as ARPA text "
                             "and as binary of the six types) x sentences (empty, all-whitespace, each ASCII whitespace byte as separator / leading / trailing, "
-                            "OOV, <s> </s> <unk> inside, invalid UTF-8, str.split()-only whitespace bytes, 1000-byte word, 200 words, NUL at every position class, "
-                            "random joins of the model's own n-grams with random whitespace) x bos/eos in {T,F}^2.  evaluations = sentence x model x combination.  "
+                            "OOV, <s> </s> <unk> inside, invalid UTF-8, every non-ASCII str.isspace() character between two words, 1000-byte word, 200 words, NUL at every position class, "
+                            "random joins of the model's own n-grams with random whitespace) x bos/eos in {T,F}^2; every valid-UTF-8 sentence is given to score / full_scores / perplexity / `in` both as bytes and as str.  evaluations = sentence x model x combination.  "
                             "Non-trivial: >= 2 tokens, or leading/trailing whitespace, or a NUL byte; distinct = distinct (model, sentence).")
     ctx.coverage["spec_oracle_failures"] = results["spec_fail"]
     ctx.coverage["correspondence_mismatches"] = len(results["mismatch"])
